@@ -192,6 +192,7 @@ type SimNet struct {
 	Recv       network.Receiver
 	OnSend     func(to peer.ID, m datatransfer.Message) // optional delivery hook (called outside mu, only for successful sends)
 	OnSendGate func()                                   // optional: called (outside mu) before SendMessage returns; a blocking gate holds the sender there
+	OnSendCall func(c NetCall)                          // optional: like OnSendGate, with the call (kind of message, outcome)
 }
 
 func (n *SimNet) add(c NetCall) {
@@ -215,13 +216,18 @@ func (n *SimNet) SendMessage(ctx context.Context, to peer.ID, m datatransfer.Mes
 	if ctx.Err() != nil { // a real network refuses to send on a finished context
 		fail = true
 	}
-	n.Calls = append(n.Calls, NetCall{What: "send", To: PeerName(to), Msg: DescribeMsg(m), OK: !fail})
+	nc := NetCall{What: "send", To: PeerName(to), Msg: DescribeMsg(m), OK: !fail}
+	n.Calls = append(n.Calls, nc)
 	n.Raw = append(n.Raw, m)
 	cb := n.OnSend
 	gate := n.OnSendGate
+	gate2 := n.OnSendCall
 	n.mu.Unlock()
 	if gate != nil {
 		gate()
+	}
+	if gate2 != nil {
+		gate2(nc)
 	}
 	if fail {
 		return errors.New("simnet: send failed")
@@ -274,6 +280,7 @@ type SimTransport struct {
 	Fail   map[string][]bool // script per call kind
 	Events datatransfer.EventsHandler
 	OnCall func(c TCall, m datatransfer.Message) // optional (outside mu)
+	Gate   func(c TCall)                         // optional: called (outside mu) before any call returns, failed ones included; may block
 }
 
 func (t *SimTransport) rec(c TCall, m datatransfer.Message) error {
@@ -285,7 +292,11 @@ func (t *SimTransport) rec(c TCall, m datatransfer.Message) error {
 	c.OK = !fail
 	t.Calls = append(t.Calls, c)
 	cb := t.OnCall
+	gt := t.Gate
 	t.mu.Unlock()
+	if gt != nil {
+		gt(c)
+	}
 	if fail {
 		return errors.New("simtransport: " + c.Call + " failed")
 	}
